@@ -32,7 +32,7 @@ ANCHORS = ["decaylanguage.modeling.ampgen2goofit:ampgen2goofit", "decaylanguage.
            "decaylanguage.modeling.goofit:GooFitChain.make_amplitude", "decaylanguage.modeling.goofit:GooFitPyChain.make_amplitude"]
 WORKERS = {"quick": 8, "thorough": 16}
 WATCHDOG = {"quick": 900, "thorough": 3300}
-REQUIRED = {"conjugate-event-type": 3, "conversion-after-a-failed-conversion-by-one-converter": 5, "free-coupling": 5, "fixed-coupling": 5, "free-parameter": 5, "fixed-parameter": 5, **{f"lineshape:{k}": 3 for k in A.LS_KINDS}, "spline-array": 3,
+REQUIRED = {"converted-with-colours-on": 3, "conjugate-event-type": 3, "conversion-after-a-failed-conversion-by-one-converter": 5, "free-coupling": 5, "fixed-coupling": 5, "free-parameter": 5, "fixed-parameter": 5, **{f"lineshape:{k}": 3 for k in A.LS_KINDS}, "spline-array": 3,
             "kmatrix-arrays": 3, "entry:returned-string": 10, "entry:printed": 10, "entry:command-line": 2, "shipped-model": 1, "python-executed": 10,
             "cross-language-compared": 10, "file-converted-again-after-another": 5, "converters-with-different-histories": 2}
 ASSUMPTIONS = ["GooFit itself is not installed: the Python output runs against a recording stand-in whose vocabulary (Variable, DecayInfo4, Lineshapes.*, FF, SpinFactor, "
@@ -44,6 +44,14 @@ TS = re.compile(r"^(\W*)Generated on .*$", re.M)
 
 def strip_ts(s):
     return TS.sub("Generated on <timestamp>", s)
+
+
+ANSI = re.compile(r"\x1b\[[0-9;]*m")
+
+
+def plain(s):
+    """without the timestamp and without colour escape codes (a file may have been converted once with colours on and once without)"""
+    return ANSI.sub("", strip_ts(s))
 
 
 def run_entry(path, lang, entry):
@@ -120,10 +128,10 @@ def again_after_another_file(ctx):
         if not ok:
             continue
         ctx.mon("C19.same_text_when_converted_again")
-        if strip_ts(res[0]) != strip_ts(first):
+        if plain(res[0]) != plain(first):
             import difflib  # noqa: PLC0415
 
-            diff = [x for x in difflib.unified_diff(strip_ts(first).splitlines(), strip_ts(res[0]).splitlines(), lineterm="", n=0)][:6]
+            diff = [x for x in difflib.unified_diff(plain(first).splitlines(), plain(res[0]).splitlines(), lineterm="", n=0)][:6]
             ctx.violate(f"conversion:differs-when-repeated-after-another-file:{lang}", " | ".join(diff), wit)
         if lang == "cpp":
             try:
@@ -155,8 +163,17 @@ def check_text(ctx, text, wit0, label, shipped=False, cli=False, nontrivial=True
                 run_entry(bad, which, "returned")
             except Exception:  # noqa: BLE001, S110   what it raises is not judged
                 pass
+        # every fourth text is converted the way a terminal user sees it: plumbum's colours switched on (header lines carry escape codes)
+        coloured = (not shipped) and _nconv[0] % 4 == 2
+        if coloured:
+            from plumbum import colors as _colors  # noqa: PLC0415
+
+            ctx.hit("converted-with-colours-on")
+            _old_colour = _colors.use_color
+            _colors.use_color = 1
+            wit0 = {**wit0, "colours": "on"}
         for lang in ("cpp", "python"):
-            for entry in (["returned", "printed"] + (["cli"] if cli else [])):
+            for entry in (["returned", "printed"] + (["cli"] if cli and not coloured else [])):
                 wit = {**wit0, "language": lang, "entry": entry}
                 ctx.case({"t": text if len(text) < 20000 else label, "l": lang, "e": entry}, nontrivial, "shipped" if shipped else "gen")
                 ctx.hit({"returned": "entry:returned-string", "printed": "entry:printed", "cli": "entry:command-line"}[entry])
@@ -169,6 +186,8 @@ def check_text(ctx, text, wit0, label, shipped=False, cli=False, nontrivial=True
                     ctx.violate(f"returned-string:printed-instead:{lang}", f"ret_output=True still printed {other[:200]!r}", wit)
                 if entry == "printed" and other is not None:
                     ctx.violate(f"printed:returned-something:{lang}", f"{other!r}"[:200], wit)
+        if coloured:
+            _colors.use_color = _old_colour
         ctx.mon("C19.entry_points_agree")
         for lang in ("cpp", "python"):
             base = outs.get((lang, "returned"))
